@@ -287,7 +287,12 @@ def _reducer_facts(ev0, f):
 
 def _r5_reducers(run, ev):
     project = run.project
-    ev0 = sym.make_evaluator(project, PYR, [])
+    # the counters with their private helpers spliced in: a shared `_reduce(default, step)` loop and per-tile step functions
+    # (passed as arguments) are the same three reductions
+    ev0 = sym.make_evaluator(project, PYR, [], inline_local=True)
+    ev0.self_class = PYR + ".Pyramid"
+    ev0.no_inline = ("_make_iter_reducer", "count_operations", "count_leaf_tiles", "count_live_tiles", "_walk_serial", "_walk_parallel", "_generator",
+                     "generate_pos", "_postfix_pos", "is_subtile", "tiles_at_depth", "depth2tiles", "pos_parent", "pos_children", "_make_position_filter")
     ev0.static_len = c01._reducer_slots      # the reduction iterator hands out the four child slots
     specs = {}
 
